@@ -89,7 +89,7 @@ class Prop(BaseProp):
             return ("ckd_chain", p(rng.randrange(1, 4)))
         if r < 0.50:
             lo = rng.randrange(0, 5)
-            return ("gen_children", p(rng.randrange(0, 3)), lo, lo + rng.randrange(0, 3))
+            return ("gen_children", p(rng.randrange(0, 3)), lo, lo + rng.randrange(0, 6))
         if r < 0.66:
             return ("addr", rng.randrange(0, 5), p(rng.randrange(0, 3)))
         if r < 0.72:
@@ -111,6 +111,14 @@ class Prop(BaseProp):
             ops = [self.rand_op(rng) for _ in range(40 if T else 20)]
             ops = ops + [ops[0], ops[3], ops[0]] + list(reversed(ops[:6])) + [("pk_addr", [1, 2])]      # repetition and reordering
             cases.append({"kind": "Hist", "seed": seed, "testnet": j % 2 == 1, "ops": ops, "threads": 0})
+        # directed history: the children list of the root ends with nodes whose first/last indexes match a later interval request
+        seed = bytes(rng.randrange(256) for _ in range(32)).hex()
+        a = rng.randrange(0, 4)
+        ops = [("ckd_chain", [a]), ("ckd_chain", [a + 7]), ("ckd_chain", [a + 2]), ("gen_children", [], a, a + 3),
+               ("by_path", "m/%d/1" % (a + 1)), ("by_path", "m/%d/0" % (a + 9)), ("by_path", "m/%d" % (a + 4)), ("gen_children", [], a + 1, a + 5),
+               ("gen_children", [], a, a + 3), ("ckd_chain", [H + 1]), ("ckd_chain", [H + 5, 1]), ("ckd_chain", [H + 3]), ("gen_children", [], H + 1, H + 4),
+               ("gen_children", [], a, a + 5), ("gen_children", [], a + 1, a + 4)]
+        cases.append({"kind": "Hist", "seed": seed, "testnet": False, "ops": ops, "threads": 0})
         seed = bytes(rng.randrange(256) for _ in range(32)).hex()
         ops = [self.rand_op(rng) for _ in range(12 if T else 8) if True]
         ops = [o for o in ops if o[0] != "generate"] + [("derive", [0, 1]), ("addr", 1, [0, 1]), ("by_path", "m/0/1"), ("pk_addr", [0])]
